@@ -288,6 +288,42 @@ def man_shift_guard(f):
     return Must(f, gen_edge=gen_edge, kill_stmt=kill_stmt)
 
 
+def clause_decimal_window(facts, rep):
+    """the big-decimal fallback short-cuts on the position of the decimal point dp (value = 0.d1d2... x 10^dp with
+    d1 != 0, so 10^(dp-1) <= value < 10^dp): 'dp > K' may only declare overflow if 10^K > DBL_MAX, i.e. K >= 309, and
+    'dp < K' may only declare zero if 10^(K-1) <= 2^-1075 (half the smallest subnormal), i.e. K <= -323.  A tighter
+    bound rejects finite values such as 1.7e308 written with many digits as infinity."""
+    n = 0
+    for f in facts.functions:
+        if f.short != 'DecimalToF64':
+            continue
+        rep.fn(f)
+        seen = set()
+        for bid, i, s_, e in f.walk():
+            if e.get('k') != 'bin' or e['op'] not in ('>', '<', '>=', '<='):
+                continue
+            l, r = strip(e['l']), strip(e['r'])
+            if l is None or l.get('k') != 'member' or l.get('name') != 'dp' or cval(e['r']) is None:
+                continue
+            K = cval(e['r'])
+            if abs(K) < 100 or locline(e['loc']) in seen:
+                continue
+            seen.add(locline(e['loc']))
+            op = e['op']
+            # smallest dp that satisfies (for > / >=) or largest (for < / <=)
+            if op in ('>', '>='):
+                first = K + 1 if op == '>' else K
+                ok = first - 1 >= 309           # value >= 10^(first-1) must exceed DBL_MAX
+                why = 'values from 10^%d upwards are declared infinite; DBL_MAX is about 1.8 x 10^308' % (first - 1)
+            else:
+                last = K - 1 if op == '<' else K
+                ok = last <= -324               # value < 10^last must round to zero
+                why = 'values below 10^%d are declared zero; half the smallest subnormal is about 2.5 x 10^-324' % last
+            n += 1
+            rep.check(ok, 'E5.decimal-window', f.qn, show(e), locline(e['loc']), why, facts.config)
+    rep.require(n >= 2, 'C04: early-out bounds of DecimalToF64 found: %d (2 expected)' % n)
+
+
 def run(rep, tier):
     configs = ['K1'] if tier == 'quick' else ['K1', 'K3', 'K7']
     for cfg in configs:
@@ -304,6 +340,7 @@ def run(rep, tier):
         clause_i(facts, rep)
         clause_j(facts, rep)
         clause_k(facts, rep, tier)
+        clause_decimal_window(facts, rep)
         # 'rejected with the infinity error': the code set by parseNumber reaches the caller unchanged (shared with C01)
         from . import c01 as _c01
         _c01.clause_first_error(facts, rep)
